@@ -105,6 +105,20 @@ const FieldA = "A"
 const iota0 = iota
 '''
 
+DEP = '''package dep
+
+import "github.com/google/wire"
+
+type T struct{ N int }
+
+func N1() T { return T{N: 1} }
+func N2() T { return T{N: 2} }
+func Exit(code int) {}
+func Three() (int, int, int) { return 1, 2, 3 }
+
+var BadSet = wire.NewSet(N1, N2)
+var GoodSet = wire.NewSet(N1)
+'''
 INJ = '''//go:build wireinject
 // +build wireinject
 
@@ -241,6 +255,13 @@ def forms():
                      ("bad-set", "var TBad = wire.NewSet(NewA, NewA)"), ("cyclic-set", "func cA(b bb) aa { return 0 }\nfunc cB(a aa) bb { return 0 }\ntype aa int\ntype bb int\nvar TC = wire.NewSet(cA, cB)")]:
         add("toplevel-" + nm, "NewA", expect="any")
         F[-1]["decl"] = decl
+    # ---- functions and sets of another package (a dependency) that are no providers / not well-formed: the diagnostic
+    # must point at the reference in the user's file, not only into the dependency
+    add("dep-func-not-provider", "NewA, dep.Exit")
+    add("dep-func-bad-results", "NewA, dep.Three")
+    add("dep-bad-set", "dep.BadSet")
+    add("dep-bad-set-nested", "wire.NewSet(NewB, wire.NewSet(dep.BadSet))")
+    add("dep-good-set", "dep.GoodSet", res="dep.T", expect="ok")
     # ---- injector shapes
     add("injector-extra-stmt", None, body="_ = 1\n\tpanic(wire.Build(NewA))", key="invalid-injector:diagnostic-without-position")
     add("injector-two-builds", None, body="wire.Build(NewA)\n\twire.Build(NewA)\n\treturn 0", key="invalid-injector:diagnostic-without-position")
@@ -317,6 +338,8 @@ def render(f):
     if f["name"].startswith("result-"):
         res = "(%s, error)" % f["res"]
     imp = '. "github.com/google/wire"\n\t' if f["dot"] else ""
+    if "dep." in body or "dep." in res:
+        imp += '"example.com/depmod/dep"\n\t'
     inj = INJ % (imp, f.get("params", ""), res, body)
     if f["dot"]:
         inj = inj.replace('\t"github.com/google/wire"\n', "")
@@ -344,8 +367,14 @@ def eng_forms(pid, tier, wd, known, replay=None):
     tools = build_tools()
     root = os.path.join(wd, "forms")
     os.makedirs(root, exist_ok=True)
-    open(os.path.join(root, "go.mod"), "w").write("module example.com/f\n\ngo 1.21\n\nrequire github.com/google/wire v0.1.0\n\nreplace github.com/google/wire => %s\n" % REPO)
+    open(os.path.join(root, "go.mod"), "w").write("module example.com/f\n\ngo 1.21\n\nrequire github.com/google/wire v0.1.0\n\nrequire example.com/depmod v0.0.0\n\n"
+                                                  "replace github.com/google/wire => %s\n\nreplace example.com/depmod => ../depmod\n" % REPO)
     shutil.copy(os.path.join(REPO, "go.sum"), os.path.join(root, "go.sum"))
+    # a dependency: another module, outside the user's sources
+    depmod = os.path.join(wd, "depmod")
+    os.makedirs(os.path.join(depmod, "dep"), exist_ok=True)
+    open(os.path.join(depmod, "go.mod"), "w").write("module example.com/depmod\n\ngo 1.21\n\nrequire github.com/google/wire v0.1.0\n")
+    open(os.path.join(depmod, "dep", "dep.go"), "w").write(DEP)
     for i, f in enumerate(fs):
         d = os.path.join(root, "f%d" % i)
         os.makedirs(d, exist_ok=True)
